@@ -42,13 +42,6 @@ KNOWN = [
     # numeric value (so `1.0` for 1 is fine) and integers with |n| > 2^53 are not generated for the JSON family.
     dict(id='json-int-via-f64', family='json', excluded='integers with |n| > 2^53',
          input='out json 9007199254740993;', observed='9007199254740992.0', clause='numbers of equal numeric value'),
-    # TOML, left over by 3850144 (which refuses a value when the text written for it does not parse as TOML): a top-level list whose only
-    # item is a list of exactly one scalar is written as `[[1]]` / `[['a']]` / `[[true]]` / `[[1.5]]` -- text that DOES parse, as an
-    # array-of-tables header: tomllib reads {'1': [{}]} ({'1': {'5': [{}]}} for 1.5).  Exit 0, same through `convert toml [[1]]`.
-    # ([[1, 2]], [[[1]]], [[1], [2]], [[]] are refused.)  Not generated: TOML_NOT_A_DOCUMENT below has no list of that shape.
-    dict(id='toml-top-level-singleton-list-of-singleton-list', family='toml', excluded='top-level [[x]] with x one scalar',
-         input='out toml [[1]];', observed='"[[1]]" (exit 0), which is the TOML document {"1": [{}]}',
-         clause='a value the target format cannot represent is reported as an error; it is never silently altered'),
 ]
 
 
@@ -846,7 +839,7 @@ def inject_mix(rnd, v):
     return v
 
 
-TOML_NOT_A_DOCUMENT = ['1', '"s"', 'true', '1.5', '[1, 2]', '[]', '[{a = 1}]', '[[1, 2]]', '[[[1]]]', '[[1], [2]]', '[[]]', '"a = 1"', '"[a]"', '(0 - 7)']   # not '[[1]]': KNOWN
+TOML_NOT_A_DOCUMENT = ['1', '"s"', 'true', '1.5', '[1, 2]', '[]', '[{a = 1}]', '[[1, 2]]', '[[[1]]]', '[[1], [2]]', '[[]]', '"a = 1"', '"[a]"', '(0 - 7)', '[[1]]', '[["a"]]', '[[true]]', '[[1.5]]']
 TOML_MIXED = [('{l = [1, {x = 1}]}', Tup([('l', [1, Tup([('x', 1)])])])), ('{l = [{x = 1}, 1]}', Tup([('l', [Tup([('x', 1)]), 1])])), ('{l = [[{a = 1}]]}', Tup([('l', [[Tup([('a', 1)])]])])),
               ('{l = [[1], {a = 1}]}', Tup([('l', [[1], Tup([('a', 1)])])])), ('{l = [{a = [1, {b = 1}]}]}', Tup([('l', [Tup([('a', [1, Tup([('b', 1)])])])])])),
               ('{l = [{}, 1]}', Tup([('l', [Tup([]), 1])])), ('{l = [[[{a = 1}]]]}', Tup([('l', [[[Tup([('a', 1)])]]])])), ('{l = [{a = [[{b = 1}]]}]}', Tup([('l', [Tup([('a', [[Tup([('b', 1)])]])])])])),
